@@ -520,6 +520,8 @@ class Interp:
         if isinstance(v, Obj):
             return self.getattr_obj(v, name, frame)
         if isinstance(v, AbsObj):
+            if name in getattr(v, "getters", {}):  # computed attribute (a getter with effects)
+                return v.getters[name](self)
             if name in v.attrs:
                 return v.attrs[name]
             if name in v.methods:
@@ -717,7 +719,7 @@ class Interp:
                         return
                     if raw is not None:
                         break
-            self.event("setattr", target=obj.tag, name=name, frozen=bool(obj.frozen))
+            self.event("setattr", target=obj.tag, name=name, frozen=bool(obj.frozen), value_tag=str(getattr(value, "tag", "")))
             obj.attrs[name] = value
             return
         if isinstance(obj, AbsObj):
